@@ -81,6 +81,13 @@ def run_spec(spec, rec):
             good = oc == ['ok', ['v', tag]]
         elif k == 'termjob':
             good = oc[0] == 'exc' and oc[1] == 'Terminated'
+            if not good and oc == ['ok', ['v', tag]]:
+                # the job came to its own end although terminate_job had been
+                # called (seen about once in 100 scenarios at load average > 60,
+                # never on a replay): for C01 that is still one outcome, its own;
+                # whether the signal stops the task is C08's question
+                rec.anomaly('terminate_job_had_no_effect', job_=rj)
+                good = True
         if not good:
             rec.violation('job_outcome_not_its_own', a, job_=rj, params=p)
     if obs.get('cache_left'):
